@@ -297,7 +297,8 @@ def err2(ctx):
             reach = b.reach_after(cs.point, avoid_edges=avoid_edges)
             back = cs.point in reach
             ctx.check(not back, key, where(b, cs.point), 'an I/O error from this call cannot reach the loop back-edge',
-                      'error path that goes round again: when this call fails with an I/O error the loop retries it (open would spin forever)')
+                      'error path that goes round again: when this call fails with an I/O error the loop retries it (open would spin forever)',
+                      detail={'cycle': b.witness(cs.point, cs.point, avoid_edges=avoid_edges)} if back else None)
     if n == 0:
         ctx.missing('loop-sites', 'no io-bearing call inside a loop on the recovery path')
 
